@@ -85,7 +85,11 @@ func WConfig(prop, tier string) *Config {
 				second = append(second, n)
 			}
 		}
-		cfg.Phases = append(cfg.Phases, Phase{Name: "module-params-depth2", Roots: []string{"R1"}, Ops: append(append([]string{}, first...), second...), First: first, Second: second, Depth: 2, Dev: 4})
+		roots := pp.roots
+		if roots == nil {
+			roots = []string{"R1"}
+		}
+		cfg.Phases = append(cfg.Phases, Phase{Name: "module-params-depth2", Roots: roots, Ops: append(append([]string{}, first...), second...), First: first, Second: second, Depth: 2, Dev: 4})
 	}
 	// SAME-BLOCK interleavings: every ordered triple of different ops of a small per-property set as ONE
 	// block (different signers; each component planned on the pre-block state), then an empty block — what
@@ -211,6 +215,9 @@ func wConfig(prop, tier string) *Config {
 		// happen in one sweep (R7, R14)
 		llpForced := []string{"price_atom_1", "price_atom_2", "price_atom_3", "empty", "gap_61m", "llp_bot_close_all", "llp_bot_close_all_at_1", "llp_bot_close_all_at_2", "llp_bot_stoploss_all_at_4", "llp_close_full_t1", "perp_open_long_t3_huge", "perp_open_short_t2", "exit_p1_90pct_lp1"}
 		cfg.Phases = append(cfg.Phases, Phase{Name: "llp-forced-closes-depth2", Roots: []string{"R1", "R5", "R7", "R14"}, Ops: llpForced, Depth: 2, Dev: 2})
+		// a pool FAR OFF its target weights (root R2): single-sided joins and exits in both directions meet the
+		// bonus / weight-breaking branches, with whatever the rebalance treasury happens to hold
+		cfg.Phases = append(cfg.Phases, Phase{Name: "off-target-pool-depth2", Roots: []string{"R2"}, Ops: []string{"join_p1_single_usdc_t1", "join_p1_single_atom_t2", "exit_p1_single_atom_lp1", "exit_p1_10pct_lp1", "join_p1_all_t1", "swap_in_p1_usdc_atom_L", "swap_in_p1_atom_usdc_L", "perp_open_long_t3_x5", "empty"}, Depth: 2, Dev: 2})
 	case "C12":
 		ops := []string{"bond_lp1_L", "unbond_lp2_half", "unbond_lp1_all", "join_p1_all_t1", "exit_p1_all_t1", "exit_p1_10pct_lp1", "join_p2_all_t1", "exit_p2_all_t1", "llp_open_t1_x3", "llp_close_full_t1", "llp_bot_close_all", "mc_claim_lp1", "commit_eden_lp1", "commit_edenb_lp1", "uncommit_eden_lp1",
 			"vest_eden_lp1", "cancel_vest_lp1", "claim_vesting_lp1", "stake_elys_lp1", "unstake_elys_lp1", "gap_59m", "gap_61m", "price_atom_2", "empty", "exit_p2_all_lp1", "unbond_lp2_all", "estaking_withdraw_lp1", "unstake_elys_lp1_all", "uncommit_eden_lp1_all", "uncommit_edenb_lp1_all", "stake_eden_lp1", "unstake_eden_lp1", "unstake_elys_lp1_60pct", "unstake_elys_lp1_90pct", "llp_open_t2_x5", "llp_close_full_t2_at_1", "llp_close_full_t1_at_1", "llp_bot_close_all_at_1", "commit_ueden_lp1_more_than_claimed", "commit_uedenb_lp1_more_than_claimed"}
@@ -356,18 +363,20 @@ var perpEdgeOps = []string{"perp_bot_liquidate_all_fwd_at_edge_long", "perp_bot_
 type paramPhase struct {
 	mods   []string // substrings of the governance message type URLs
 	follow []string // the property's core ops
+	roots  []string // default: R1
 }
 
 var paramPhases = map[string]paramPhase{
-	"C01": {[]string{"/elys.amm.", "/elys.perpetual.MsgUpdateParams"}, []string{"swap_in_p1_usdc_atom_L", "swap_out_p1_atom_usdc_D", "swap_in_p1_atom_usdc_L", "join_p1_single_usdc_t1", "exit_p1_single_atom_lp1", "perp_open_long_t3_x5", "perp_close_full_t1"}},
-	"C02": {[]string{"/elys.amm.", "/elys.leveragelp."}, []string{"join_p1_all_t1", "exit_p1_10pct_lp1", "llp_open_t2_x5", "llp_close_full_t1", "llp_bot_close_all_at_2"}},
-	"C06": {[]string{"/elys.leveragelp."}, []string{"gap_1d", "llp_open_t2_x5", "llp_close_full_t1", "bond_lp1_L", "unbond_lp2_half"}},
-	"C08": {[]string{"/elys.leveragelp.", "/elys.stablestake."}, []string{"llp_open_t2_x5", "llp_open_t1_x2_again", "llp_close_half_t1", "llp_close_full_t1", "llp_bot_close_all_at_2", "gap_61m"}},
-	"C09": {[]string{"/elys.perpetual.", "/elys.amm.MsgUpdateParams"}, []string{"perp_open_long_t3_x5", "perp_topup_t1", "perp_close_half_t1", "perp_close_full_t2", "perp_bot_close_all_at_3", "gap_1d"}},
-	"C11": {[]string{"/elys.perpetual.", "/elys.amm.MsgUpdateParams"}, []string{"perp_open_long_t3_x5", "perp_close_full_t1", "swap_in_p1_usdc_atom_L", "join_p1_all_t1", "exit_p1_10pct_lp1", "perp_bot_close_all_at_3"}},
-	"C12": {[]string{"/elys.commitment.", "/elys.estaking.", "/elys.masterchef.MsgUpdateParams"}, []string{"commit_eden_lp1", "uncommit_eden_lp1", "unstake_elys_lp1", "vest_eden_lp1", "mc_claim_lp1", "unbond_lp2_half"}},
-	"C13": {[]string{"/elys.masterchef.", "/elys.estaking."}, []string{"swap_in_p1_usdc_atom_L", "fee_tx_uatom", "mc_claim_lp1", "join_p2_big_t1", "exit_p2_half_lp1", "gap_1d"}},
-	"C15": {[]string{"/elys.commitment.", "/elys.tokenomics.", "/elys.estaking."}, []string{"vest_eden_lp1", "claim_vesting_lp1", "vest_now_lp1", "mc_claim_lp1", "gap_1d", "stake_elys_lp1"}},
+	"C01": {[]string{"/elys.amm.", "/elys.perpetual.MsgUpdateParams"}, []string{"swap_in_p1_usdc_atom_L", "swap_out_p1_atom_usdc_D", "swap_in_p1_atom_usdc_L", "join_p1_single_usdc_t1", "exit_p1_single_atom_lp1", "perp_open_long_t3_x5", "perp_close_full_t1"}, nil},
+	"C02": {[]string{"/elys.amm.", "/elys.leveragelp."}, []string{"join_p1_all_t1", "exit_p1_10pct_lp1", "llp_open_t2_x5", "llp_close_full_t1", "llp_bot_close_all_at_2"}, nil},
+	"C06": {[]string{"/elys.leveragelp."}, []string{"gap_1d", "llp_open_t2_x5", "llp_close_full_t1", "bond_lp1_L", "unbond_lp2_half"}, nil},
+	"C08": {[]string{"/elys.leveragelp.", "/elys.stablestake."}, []string{"llp_open_t2_x5", "llp_open_t1_x2_again", "llp_close_half_t1", "llp_close_full_t1", "llp_bot_close_all_at_2", "gap_61m"}, nil},
+	"C09": {[]string{"/elys.perpetual.", "/elys.amm.MsgUpdateParams"}, []string{"perp_open_long_t3_x5", "perp_topup_t1", "perp_close_half_t1", "perp_close_full_t2", "perp_bot_close_all_at_3", "gap_1d"}, nil},
+	// R2: pool 1 off its target weights (a halved threshold puts it in the bonus regime)
+	"C11": {[]string{"/elys.perpetual.", "/elys.amm.MsgUpdateParams"}, []string{"perp_open_long_t3_x5", "perp_close_full_t1", "swap_in_p1_usdc_atom_L", "join_p1_all_t1", "exit_p1_10pct_lp1", "perp_bot_close_all_at_3", "join_p1_single_atom_t2", "join_p1_single_usdc_t1"}, []string{"R1", "R2"}},
+	"C12": {[]string{"/elys.commitment.", "/elys.estaking.", "/elys.masterchef.MsgUpdateParams"}, []string{"commit_eden_lp1", "uncommit_eden_lp1", "unstake_elys_lp1", "vest_eden_lp1", "mc_claim_lp1", "unbond_lp2_half"}, nil},
+	"C13": {[]string{"/elys.masterchef.", "/elys.estaking."}, []string{"swap_in_p1_usdc_atom_L", "fee_tx_uatom", "mc_claim_lp1", "join_p2_big_t1", "exit_p2_half_lp1", "gap_1d"}, nil},
+	"C15": {[]string{"/elys.commitment.", "/elys.tokenomics.", "/elys.estaking."}, []string{"vest_eden_lp1", "claim_vesting_lp1", "vest_now_lp1", "mc_claim_lp1", "gap_1d", "stake_elys_lp1"}, nil},
 }
 
 var sameBlockSets = map[string][]string{
